@@ -175,6 +175,8 @@ pub enum HOp {
     /// close and keep using the closed cache (C15)
     Close,
     Throttle { on: bool },
+    /// flip the admission filter of the disk tier: while off, every write offered to the disk tier is rejected
+    Admission { admit: bool },
     Nop,
     /// read every key of the universe from the memory tier (has the side effects of a lookup; used by C15 right
     /// before close to record what is resident)
@@ -294,6 +296,22 @@ impl StorageFilterCondition for RejectKeys {
     }
 }
 
+/// Admission condition driven by the history (`HOp::Admission`): admit everything / reject everything.
+#[derive(Debug)]
+struct AdmitSwitch {
+    admit: Arc<std::sync::atomic::AtomicBool>,
+}
+
+impl StorageFilterCondition for AdmitSwitch {
+    fn filter(&self, _: &Arc<foyer::Statistics>, _: u64, _: usize) -> StorageFilterResult {
+        if self.admit.load(Ordering::SeqCst) {
+            StorageFilterResult::Admit
+        } else {
+            StorageFilterResult::Reject
+        }
+    }
+}
+
 #[derive(Debug)]
 struct AdmitKeys {
     hashes: Vec<u64>,
@@ -329,6 +347,8 @@ pub struct HybSim {
     generation: u32,
     log: Vec<(u32, LogRec)>,
     closed: bool,
+    /// state of the history-driven admission switch (kept across reopen)
+    admit: Arc<std::sync::atomic::AtomicBool>,
 }
 
 fn lookup_out(r: foyer::Result<Option<Entry>>) -> LookupOut {
@@ -377,6 +397,7 @@ impl HybSim {
             generation: 0,
             log: vec![],
             closed: false,
+            admit: Arc::new(std::sync::atomic::AtomicBool::new(true)),
         };
         let ok = sim.open(RecoverMode::Quiet);
         assert!(ok, "harness: initial open of an empty device failed");
@@ -404,6 +425,7 @@ impl HybSim {
             generation: 0,
             log: vec![],
             closed: false,
+            admit: Arc::new(std::sync::atomic::AtomicBool::new(true)),
         };
         let ok = sim.open(mode);
         (sim, ok)
@@ -437,12 +459,14 @@ impl HybSim {
         } else {
             engine = engine.with_eviction_pickers(vec![fifo()]);
         }
-        if !cfg.admission_reject.is_empty() {
-            engine = engine.with_admission_filter(StorageFilter::new().with_condition(RejectKeys {
-                hashes: cfg.admission_reject.iter().map(|k| cfg.hash.hash_of(*k as u64)).collect(),
-                calls: Arc::new(AtomicU64::new(0)),
-            }));
-        }
+        engine = engine.with_admission_filter(
+            StorageFilter::new()
+                .with_condition(RejectKeys {
+                    hashes: cfg.admission_reject.iter().map(|k| cfg.hash.hash_of(*k as u64)).collect(),
+                    calls: Arc::new(AtomicU64::new(0)),
+                })
+                .with_condition(AdmitSwitch { admit: self.admit.clone() }),
+        );
         if !cfg.reinsert.is_empty() {
             engine = engine.with_reinsertion_filter(StorageFilter::new().with_condition(AdmitKeys {
                 hashes: cfg.reinsert.iter().map(|k| cfg.hash.hash_of(*k as u64)).collect(),
@@ -887,6 +911,10 @@ impl HybSim {
                 } else {
                     HRet::Task(t)
                 }
+            }
+            HOp::Admission { admit } => {
+                self.admit.store(*admit, Ordering::SeqCst);
+                HRet::None
             }
             HOp::Throttle { on } => {
                 if *on {
